@@ -230,12 +230,24 @@ func ruleRecState(c *Ctx) {
 	for _, fn := range fns {
 		fn := fn
 		allInstrs(fn, func(in ssa.Instruction) {
-			st, ok := in.(*ssa.Store)
-			if !ok {
-				return
+			// the address of a record-group field handed on as a value: stored into an object, or passed to a
+			// function of the package (a constructor that puts it into the object it returns)
+			var fa *ssa.FieldAddr
+			switch x := in.(type) {
+			case *ssa.Store:
+				fa, _ = x.Val.(*ssa.FieldAddr)
+			case *ssa.Call:
+				if cal := x.Call.StaticCallee(); cal != nil && cal.Pkg == fn.Pkg {
+					for _, a := range x.Call.Args {
+						if f2, ok := a.(*ssa.FieldAddr); ok {
+							if f, x2 := fieldOfAddr(f2); f != nil && isInterp(x2.Type()) && recGroup[f.Name()] {
+								fa = f2
+							}
+						}
+					}
+				}
 			}
-			fa, ok := st.Val.(*ssa.FieldAddr)
-			if !ok {
+			if fa == nil {
 				return
 			}
 			f, x := fieldOfAddr(fa)
